@@ -77,8 +77,52 @@ type Meth struct {
 	Metadata []string `json:"metadata,omitempty"`
 	Headers  []string `json:"headers,omitempty"`
 	Trailers []string `json:"trailers,omitempty"`
+	// ReqMsg / RespMsg: explicit Message(func(){ Attribute(...) }) on the request /
+	// response side: the listed attributes come first in the message, in this order.
+	ReqMsg  []MsgAttr `json:"request_message,omitempty"`
+	RespMsg []MsgAttr `json:"response_message,omitempty"`
 	// Security is the kind of the scheme the method requires: basic | apikey | jwt | oauth2.
 	Security string `json:"security,omitempty"`
+}
+
+// MsgAttr is one attribute listed in an explicit Message DSL, optionally with its own
+// attribute-level DSL (meta, description, validation).
+type MsgAttr struct {
+	Name   string `json:"name"`
+	Meta   bool   `json:"meta,omitempty"`
+	Desc   bool   `json:"desc,omitempty"`
+	MaxLen bool   `json:"max_len,omitempty"` // only on String attributes
+}
+
+func msgNames(ms []MsgAttr) []string {
+	var out []string
+	for _, m := range ms {
+		out = append(out, m.Name)
+	}
+	return out
+}
+
+func msgAttrs(ms []MsgAttr) func() {
+	return func() {
+		for _, m := range ms {
+			m := m
+			if !m.Meta && !m.Desc && !m.MaxLen {
+				dsl.Attribute(m.Name)
+				continue
+			}
+			dsl.Attribute(m.Name, func() {
+				if m.Meta {
+					dsl.Meta("any:key", "some value")
+				}
+				if m.Desc {
+					dsl.Description("carried in the message: " + m.Name)
+				}
+				if m.MaxLen {
+					dsl.MaxLength(4000)
+				}
+			})
+		}
+	}
 }
 
 // SecNames lists the payload attributes that carry credentials of the method's scheme
@@ -340,8 +384,14 @@ func (in *interp) top() {
 						if len(m.Metadata) > 0 {
 							dsl.Metadata(attrs(m.Metadata))
 						}
-						if len(m.Headers) > 0 || len(m.Trailers) > 0 {
+						if len(m.ReqMsg) > 0 {
+							dsl.Message(msgAttrs(m.ReqMsg))
+						}
+						if len(m.Headers) > 0 || len(m.Trailers) > 0 || len(m.RespMsg) > 0 {
 							dsl.Response(0, func() { // codes.OK
+								if len(m.RespMsg) > 0 {
+									dsl.Message(msgAttrs(m.RespMsg))
+								}
 								if len(m.Headers) > 0 {
 									dsl.Headers(attrs(m.Headers))
 								}
